@@ -631,4 +631,5 @@ func genC05(c *Ctx) {
 		c.add("rownode", joinHexList([][]byte{refPadding(lo, 0), refPadding(hi, 0), b, b, b, b}), "2", "4")
 	}
 	c.dist["model_leaf_hash_estimate"] = spent
+	helperCases(c)
 }
